@@ -21,7 +21,7 @@ TABLE = {
             "path is checked to pop the user from every engine, and the map's writers are enumerated. This settles the "
             "pairing for every connect/disconnect history, which is the part of the property tests cannot enumerate.",
             "Decides the pairing structure in aggregator.py; assumes the pub/sub library invokes the subscribe and "
-            "disconnect callbacks once per connection; does not decide register/unregister REST behaviour."),
+            "disconnect callbacks once per connection; does not decide register/unregister REST behaviour. (R37e) the removal loop does not suspend while iterating the live engine map."),
     "C30": ("plot-log / recent-run pairing: must-pass-through and kill queries on CFGs, who-may-call",
             "Every path to create_plot_log in run_started must have assigned fresh run data; every store_recent_run in "
             "run_stopped is under has_run() and followed on all paths by reset_run(); callers of both repository methods "
@@ -36,7 +36,7 @@ TABLE = {
             "single writer of EngineData.method. This covers every interleaving of concurrent saves because asyncio can "
             "only switch coroutines at the awaits the rule enumerates.",
             "Assumes cooperative asyncio scheduling on one loop (switch points = awaits) and that asyncio.Lock is correct; "
-            "does not decide what the engine does with the method."),
+            "does not decide what the engine does with the method. A critical section handed to asyncio.shield/create_task/ensure_future is not covered by the caller's lock."),
     "C38": ("string-alphabet injectivity analysis of the id encoder + guard dominance",
             "The return expression of create_engine_id is decomposed into encoded parts and separators and compared "
             "with the output alphabet of urllib.parse.quote; registration side effects and success replies must be "
@@ -58,14 +58,14 @@ TABLE = {
             "in non-test, non-configuration code must receive exactly TICK_TIME. This decides provenance for all programs "
             "and schedules - a type checker cannot (int is assignable to float) and tests only see a few tags.",
             "Seed assumption: Engine.tick is called with the engine clock time of the tick. Wall-clock stamping sites "
-            "that need an API change to repair are open known findings. User UOD code is out of scope."),
+            "that need an API change to repair are open known findings. User UOD code is out of scope. A time argument carried in a generator local/parameter across a yield is stale and is reported."),
     "C19": ("check-then-use contradiction rule + must-report rule on CFGs of all analyzer visitors",
             "For every branch on <collection>.has(name) the missing edge is followed on the CFG: it may never reach "
             "get()/[] of the same name (which raises) and must pass an ERROR AnalyzerItem before the exit; lookups need a "
             "dominating blank-name guard; AnalyzerItem calls never pass both length and end; lint has a catch-all. "
             "Covers every method text and tag/command set because the rule is about all paths of the visitors.",
             "Decides the lookup/report discipline of analyzer.py; exceptions raised inside pint or by validators of "
-            "UOD-defined commands are outside; one justified site is listed in the rule with its reason. Module-level helpers of the analyzer modules are audited like methods (R19f)."),
+            "UOD-defined commands are outside; one justified site is listed in the rule with its reason. Module-level helpers of the analyzer modules are audited like methods (R19f). A justified lookup site is bound to the sources of its key (every definition of the key local is one the recorded reason covers)."),
     "C23": ("finite abstract interpretation: 5-state recovery machine extracted from the source vs. the documented table",
             "ErrorRecoveryDecorator's methods are interpreted over the domain {self.state} x {Connection Status written} "
             "with hardware outcomes and time comparisons nondeterministic; the extracted transition edges must equal the "
@@ -90,7 +90,7 @@ TABLE = {
             "is checked link by link (registration, draining before clearing, de-duplication by name, latest value read "
             "at collection time, snapshot covers _iter_all_tags).",
             "Decides structure; the interleaving between the engine thread and the reporter thread is outside; tags "
-            "defined in user UOD modules are outside."),
+            "defined in user UOD modules are outside. (R36d) every dequeued tag update reaches the report."),
     "C32": ("route x sink coverage: dominance of every unit/run data access by a verified role-check helper, call-graph reach for the LSP plugin",
             "All 41 routes of the included routers are enumerated from the decorators; every call that reads or commands "
             "unit/run data (directly, through callees, or through the pylsp hook functions for the LSP websocket) must be "
@@ -104,7 +104,7 @@ TABLE = {
             "annotations (195 fields) is checked for JSON-lossy types (non-string dict keys, bytes, Decimal, Any ...); "
             "serialize/deserialize are checked for the _type/_ns envelope, the fixed namespace list, rejection of unknown "
             "names and the single catch-all that raises the protocol error. A type-level fact holds for all field values.",
-            "Trusts pydantic's model_dump/validation for JSON-safe types; does not decide NaN/precision or value equality."),
+            "Trusts pydantic's model_dump/validation for JSON-safe types; does not decide NaN/precision or value equality. (R26c) no model in the message closure customises its own dump/validate (serializer/validator hooks, model_dump override)."),
     "C33": ("sibling-agreement rule over the three user-id selections + exclusion dominance in publish_message",
             "Each selection comprehension must contain the has_access conjunct with the subscriber's recorded roles, test "
             "one distinct NotificationScope member (together covering the enum) with its scope-specific conjunct; the "
@@ -115,7 +115,7 @@ TABLE = {
             "Every path through the loop body of AggregatedErrorLog.aggregate_with must append the entry, merge it "
             "(count +1 and take its time) or be the equal-time redelivery branch; merging is restricted to equal message "
             "and severity; fresh entries start at 1 and become `latest`.",
-            "The earlier-time branch violates the rule today (open known finding). Does not decide what the engine logs."),
+            "The earlier-time branch violates the rule today (open known finding). Does not decide what the engine logs. (R35c) from_entry copies message, time and severity unmodified."),
     "C06": ("finite abstract interpretation (explicit-state) of the run-state machine extracted from the command classes, Engine.tick and the gating function",
             "The transfer functions of the seven control commands (segmented at `yield`), their cancel overrides, Engine.tick "
             "and _validate_control_command are interpreted from their CFGs over {started, paused, holding, stopping} x System "
@@ -163,7 +163,7 @@ TABLE = {
             "disable that check; flags are set only when offered; cancel_instruction and force_instruction must both "
             "reject unknown ids and track known ones; every waiting loop of a cancellable/forcible instruction must read "
             "the flag (directly or via its helper); Pause/Hold.cancel must run the inverse command.",
-            "Decides the reject-or-apply structure; tick-exact timing of the effect is not decided. Also decided (R12d): an accepted cancel of a command instance finalizes it before returning. (R12e): on the request-state model shared with C04 a cancelled Watch/Alarm never invokes its body and a forced one never returns to the same yield unchanged."),
+            "Decides the reject-or-apply structure; tick-exact timing of the effect is not decided. Also decided (R12d): an accepted cancel of a command instance finalizes it before returning. (R12e): on the request-state model shared with C04 a cancelled Watch/Alarm never invokes its body and a forced one never returns to the same yield unchanged. (R12f) cancel_instruction/force_instruction refuse a concluded invocation before any change; (R12g) _execute_command retires a request whose invocation has concluded instead of executing it."),
     "C13": ("error-discipline rules on Engine.tick (handler completeness, must-call), failure-marking rules on the interpreter "
             "and command manager, and a class-hierarchy-resolved exception-escape audit of the unprotected part of the tick",
             "The interpreter tick and the command tick must sit in try bodies with a catch-all whose every handler reaches "
@@ -188,7 +188,7 @@ TABLE = {
             "cancellable=forcible=False last, and append the item; the exclusion table equals the property's list; every "
             "visitor pairs node.completed = True with tracking.mark_completed. All are facts over every record history.",
             "Decides these structural clauses; producibility for arbitrary runtime state orders (the raise sites of the "
-            "generator) and monotonicity of the clock itself are not decided. R15f additionally decides one producibility clause: a command request never receives two different conclusive record states (which makes the generator raise for the rest of the run) - violated on the pinned tree, repaired (fixed entry)."),
+            "generator) and monotonicity of the clock itself are not decided. R15f additionally decides one producibility clause: a command request never receives two different conclusive record states (which makes the generator raise for the rest of the run) - violated on the pinned tree, repaired (fixed entry). (R15f) every cancellation finalizes at once, so no cancelled command reaches a second conclusive mark; (R15g) Tracking.mark_* called with a request/command attribute the state to that request's own invocation."),
     "C34": ("must-precede (sort before use across two cooperating functions), sibling agreement of column iteration, "
             "one-cell-per-entry path count, loop-shape and guard-dominance rules on the sample-and-hold cursor",
             "The row writer's cursor algorithm needs sorted values (established as a side effect of the header writer: "
@@ -217,7 +217,7 @@ TABLE = {
             "passed with them, in signature order. These are necessary for transparency for every assignment of registers to "
             "layers and every order.",
             "Decides the routing/pairing structure (accepted idioms: if/else grouping, setdefault, defaultdict(list)); concrete "
-            "values and behaviour of the underlying layers are outside."),
+            "values and behaviour of the underlying layers are outside. A per-layer grouping that can come from a stored attribute (kept from an earlier batch) is reported."),
     "C01": ("state-carriage completeness, self-lookup rule, origin-token (alias) propagation and validate-before-commit dominance",
             "Every runtime attribute the interpreter layer writes on AST nodes must be carried by extract_state/apply_state of "
             "its declaring class; lookups of a node id that may be the receiver's own must pass include_self=True; symbolic "
@@ -266,19 +266,19 @@ TABLE = {
             "once and the first loop must produce exactly one node per line; every returned node carries an id; partial "
             "operations (index, float/int of text, computed subscripts) outside try must be justified sites; the indentation "
             "unit is 4 everywhere and odd indentation is flagged.",
-            "Decides exactly-one and never-raises structure for all method texts; the nesting law of the if/elif chain is value-level and not decided."),
+            "Decides exactly-one and never-raises structure for all method texts; the nesting law of the if/elif chain is value-level and not decided. (R17d) path-sensitive: a line flagged with an indentation error never becomes the indentation reference."),
     "C18": ("constant folding of the grammar regexes + regex-AST queries + operator order table",
             "Grammar's patterns are folded from the source and parsed with the regex parser: group names must match the keys "
             "the parser reads, instruction_name cannot contain ':'/'#', argument cannot contain '#', rhs patterns are "
             "anchored; operator lists must not place an operator before one containing it; every character of every unit in "
             "QUANTITY_UNIT_MAP must lie in the unit class of the condition grammar.",
-            "Decides grammar-level facts; the unit class lacks '°' and 'µ' today (open known finding: a baseline test pins the regex text)."),
+            "Decides grammar-level facts; the unit class lacks '°' and 'µ' today (open known finding: a baseline test pins the regex text). (R18e) the float group accepts every decimal literal float() converts; (R18f) the value / value-unit alternatives are disjoint or the unit-less one is tried first."),
     "C21": ("dispatch-table check of the match statement + symmetry of the comparability relation derived from literal tables",
             "Every operator literal must be wired to the same-named Python comparison on (quantity_a, quantity_b); the "
             "unit -> compatible-units relation is reconstructed from the literal special cases and QUANTITY_UNIT_MAP and "
             "checked for symmetry on all 101 derived pairs (are_comparable consults only its first operand); both operands "
             "must be normalised by the same expressions.",
-            "Exactness of Decimal/pint conversion and trichotomy on values are not decided. '%' vs vol%/wt%/mol% is asymmetric today (open known findings)."),
+            "Exactness of Decimal/pint conversion and trichotomy on values are not decided. '%' vs vol%/wt%/mol% is asymmetric today (open known findings). Operands assigned together must be the same expression of their own side's value and unit."),
     "C20": ("two-sided table agreement: published names vs parser tables, regex-language inclusion (search vs match automata) of analyzer-side "
             "and run-time validators, abstract-case path exploration of the unit checks",
             "The analysis side and the run-time side are separate code; each failure kind of the property is reduced to an agreement "
@@ -288,14 +288,14 @@ TABLE = {
             "every run-time tag lookup by a method-supplied name has an analyzer test, the tag collections agree, and compound "
             "percentage units are commensurable.",
             "Decides the agreements listed; pint arithmetic beyond the stated grammar fact, uod-specific parse functions and macro "
-            "errors are not decided. Base (static unit list vs uod-registered units) and 'mol%' are open known findings."),
+            "errors are not decided. Base (static unit list vs uod-registered units) and 'mol%' are open known findings. The match mode of parse/validate is read through compiled patterns and helper delegation (opstatic/matchsite.py)."),
     "C22": ("partial evaluation of the pattern builders + regex-AST automata: language equivalence against the documented language",
             "RegexNumber / RegexCategorical are evaluated symbolically (placeholder symbols for unit / option lists), the resulting "
             "templates are compiled to automata and compared with the documented language for all instantiation shapes "
             "(a shortest counterexample word is produced); interpolated lists must pass through re.escape; the markers the reader "
             "methods search for must occur in the writer templates; no split on an escapable character after unescape.",
             "Decides the template languages over an abstract alphabet; concrete option/unit strings are represented by one symbol "
-            "each. The categorical template accepts an empty value and leading/doubled '+' today (open known findings)."),
+            "each. The categorical template accepts an empty value and leading/doubled '+' today (open known findings). (R22f) parse/validate match their own parameter against the pattern they were constructed with, both untouched, and parse returns that match's groups."),
     "C27": ("single-writer + guard check of sequence numbers, exhaustiveness of the state dispatch over the RecoverState literal, "
             "kill/must-pass-through rules on the buffer",
             "sequence_number has one writer guarded by == -1 on an increasing counter and both send paths call it; _post_async "
